@@ -20,6 +20,9 @@ pub struct Cfg {
     pub searches: Vec<(u64, u8, bool)>,
     /// honest responders also list their own id (and a neighbour's id) at addresses that never speak
     pub dup_ids: bool,
+    /// 0 none; 1 responder 1 answers get_peers without a token; 2 responder 1 appends a 7-byte entry to its
+    /// values; 3 responder 0 gives no token and responder 2 appends a 19-byte entry
+    pub quirk: u8,
     pub rng_seed: u64,
 }
 
@@ -64,6 +67,12 @@ pub fn build(cfg: &Cfg) -> (Scenario, Vec<Box<dyn Peer>>) {
         let mut r = Responder::new(r_addr(i), r_id(i), universe.clone());
         r.values = vec![format!("172.30.0.{}:{}", i + 1, 3000 + i).parse().unwrap()];
         r.rotate_tokens = cfg.dup_ids;
+        match (cfg.quirk, i) {
+            (1, 1) | (3, 0) => r.no_token = true,
+            (2, 1) => r.odd_value = Some(7),
+            (3, 2) => r.odd_value = Some(19),
+            _ => {}
+        }
         if cfg.dup_ids && i < 2 {
             let mute: SocketAddr = format!("10.0.33.{}:6881", i + 1).parse().unwrap();
             r.node_list = crate::sim::peers::NodeList::ClosestPlus(vec![(r_id(i), mute), (r_id((i + 1) % cfg.responders), mute)]);
@@ -289,12 +298,13 @@ fn fates() -> Vec<Option<Fate>> {
 }
 
 fn cfg_json(c: &Cfg) -> Value {
-    json!({"responders":c.responders,"dup_ids":c.dup_ids,"rng_seed":c.rng_seed,"searches":c.searches.iter().map(|(o,h,a)| json!([o,h,a])).collect::<Vec<_>>()})
+    json!({"responders":c.responders,"dup_ids":c.dup_ids,"quirk":c.quirk,"rng_seed":c.rng_seed,"searches":c.searches.iter().map(|(o,h,a)| json!([o,h,a])).collect::<Vec<_>>()})
 }
 fn cfg_parse(v: &Value) -> Cfg {
     Cfg {
         responders: v["responders"].as_u64().unwrap_or(3) as usize,
         dup_ids: v["dup_ids"].as_bool().unwrap_or(false),
+        quirk: v["quirk"].as_u64().unwrap_or(0) as u8,
         rng_seed: v["rng_seed"].as_u64().unwrap_or(1),
         searches: v["searches"].as_array().map(|a| a.iter().map(|s| (s[0].as_u64().unwrap_or(0), s[1].as_u64().unwrap_or(0) as u8, s[2].as_bool().unwrap_or(false))).collect()).unwrap_or_default(),
     }
@@ -337,13 +347,17 @@ pub fn run(tier: Tier) -> Report {
     let mut rep = Report::new("C03", "fault_enumeration", tier);
     let seed = 1 + seed();
     let cfgs: Vec<(Cfg, usize)> = vec![
-        (Cfg { responders: 3, searches: vec![(0, 0, true)], dup_ids: false, rng_seed: seed }, tier.pick(1, 2)),
-        (Cfg { responders: 3, searches: vec![(0, 0, true), (0, 1, false)], dup_ids: false, rng_seed: seed }, tier.pick(1, 2)),
-        (Cfg { responders: 4, searches: vec![(0, 0, false), (700, 1, true)], dup_ids: false, rng_seed: seed }, 1),
-        (Cfg { responders: 5, searches: vec![(0, 1, true), (20, 0, true)], dup_ids: false, rng_seed: seed }, 1),
-        (Cfg { responders: 3, searches: vec![(0, 0, true), (10, 1, true)], dup_ids: true, rng_seed: seed }, 1),
+        (Cfg { responders: 3, searches: vec![(0, 0, true)], dup_ids: false, quirk: 0, rng_seed: seed }, tier.pick(1, 2)),
+        (Cfg { responders: 3, searches: vec![(0, 0, true), (0, 1, false)], dup_ids: false, quirk: 0, rng_seed: seed }, tier.pick(1, 2)),
+        (Cfg { responders: 4, searches: vec![(0, 0, false), (700, 1, true)], dup_ids: false, quirk: 0, rng_seed: seed }, 1),
+        (Cfg { responders: 5, searches: vec![(0, 1, true), (20, 0, true)], dup_ids: false, quirk: 0, rng_seed: seed }, 1),
+        (Cfg { responders: 3, searches: vec![(0, 0, true), (10, 1, true)], dup_ids: true, quirk: 0, rng_seed: seed }, 1),
         // more token holders than the 8 a search may announce to
-        (Cfg { responders: 11, searches: vec![(0, 0, true)], dup_ids: false, rng_seed: seed }, 0),
+        (Cfg { responders: 11, searches: vec![(0, 0, true)], dup_ids: false, quirk: 0, rng_seed: seed }, 0),
+        // a responder that gives no token; responders whose values carry an entry of 7 / 19 bytes
+        (Cfg { responders: 3, searches: vec![(0, 0, true)], dup_ids: false, quirk: 1, rng_seed: seed }, 1),
+        (Cfg { responders: 4, searches: vec![(0, 0, true)], dup_ids: false, quirk: 2, rng_seed: seed }, tier.pick(0, 1)),
+        (Cfg { responders: 4, searches: vec![(0, 1, true), (5, 0, false)], dup_ids: false, quirk: 3, rng_seed: seed }, tier.pick(0, 1)),
     ];
     let mut runs = 0u64;
     let mut levels = vec![];
